@@ -38,8 +38,53 @@ out = {"offdiag_block_max_p1_first": o1[0], "offdiag_block_max_p2_first": o2[0],
     return r
 
 
+def check_every_entry(led):
+    """every entry of the connectivity list contributes its three blocks: two entries that join the same two panels with the same kind
+    of connection along different lines (a closed section made of two panels) are both present"""
+    it, calls = py_panel.mk()
+    for kind, (modname, ktkind, cte) in KINDS.items():
+        if not cte:
+            continue
+
+        def run():
+            del calls[:]
+            asm, panels, meta, conn = make_assembly(it, ['plate', 'plate'], [(0, 1, kind)])
+            second = dict(conn[0])
+            second[cte + '1'] = real(cte + '1_second')
+            second[cte + '2'] = real(cte + '2_second')
+            conn.append(second)
+            asm.attrs['conn'] = conn
+            del calls[:]
+            return conn, it.call(it.getattr(asm, 'get_k0_conn'), [], {})
+        for path, out in it.explore(run):
+            name = '%s[%s,two entries for the same pair]/every-entry-contributes' % (AF, kind)
+            if out[0] != 'return':
+                report(led, name + '/no-exception', AF, ['raises %s%s' % (out[1].tname, tuple(str(x)[:80] for x in out[1].eargs))], signature='raise:' + out[1].tname)
+                continue
+            conn, r = out[1]
+            wrap, terms = pycheck.terms_of(r)
+            kern = [t for k, t in terms if isinstance(t, Opaque) and t.kind == 'kernel']
+            names = [t.f['fn'] for t in kern]
+            want_names = ['fkC%s11' % kind, 'fkC%s12' % kind, 'fkC%s22' % kind] * 2
+            probs = []
+            if names != want_names:
+                probs.append('kernels called: %s, expected the three blocks of each of the two entries %s' % (names, want_names))
+            else:
+                for e, c in enumerate(conn):
+                    for t, blk in zip(kern[3 * e:3 * e + 3], ('11', '12', '22')):
+                        for key, use in ((cte + '1', blk in ('11', '12')), (cte + '2', blk in ('12', '22'))):
+                            a_ = t.f['args']
+                            if use and key in a_ and panelctx.vkey(a_[key]) != panelctx.vkey(c[key]):
+                                probs.append('entry %d block %s: %s = %s, expected %s' % (e + 1, blk, key, pycheck.describe(a_[key]), pycheck.describe(c[key])))
+            if any(k != 1 for k, t in terms):
+                probs.append('a block is scaled')
+            report(led, name, AF, probs, signature='every-entry')
+    led.solver_time('z3-feasibility', it.solver_time)
+
+
 def body(led):
     led.function(AF)
+    check_every_entry(led)
     it, calls = py_panel.mk()
     for kind, (modname, ktkind, cte) in KINDS.items():
         for order in ('p1-first', 'p2-first'):
@@ -91,11 +136,16 @@ def body(led):
                             want_d = (sum_plyts(meta[i1]) + sum_plyts(meta[i2])) * Fraction(1, 2)
                             if not peq(a_['dsb'], want_d):
                                 probs.append('block %s: dsb = %s, expected half the sum of the two thicknesses' % (blk, pycheck.describe(a_['dsb'])))
-                        pv = t.f['panel']
                         for key, idx in (('p1', i1), ('p2', i2)):
-                            k2 = key + '.a'
-                            if k2 in pv and not peq(pv[k2], meta[idx][0]['a']):
-                                probs.append('block %s: %s is not the %s of the connection entry' % (blk, key, key))
+                            if key not in (t.f.get('objs') or ()):
+                                continue              # the 11 block has only p1
+                            for at in ('a', 'b', 'm', 'n'):
+                                try:
+                                    got_ = pycheck.view_get(t, key, at)
+                                except KeyError:
+                                    continue          # this block does not read that attribute of that panel
+                                if not peq(got_, meta[idx][0][at]):
+                                    probs.append('block %s: %s.%s = %s is not that of the %s of the connection entry' % (blk, key, at, pycheck.describe(got_), key))
                 report(led, name, AF, probs)
                 # the off-diagonal block must survive make_symmetric (which keeps col >= row): needs p1's rows before p2's columns
                 st_name = '%s[%s]/off-diagonal-block-survives-symmetrisation' % (AF, tag)
